@@ -8,7 +8,7 @@ mkdir -p harness/bin evidence/replays
    || ( go build -tags verif -o bin/corr ./cmd/corr && go build -tags verif -o bin/extract ./cmd/extract ) )
 ./harness/bin/extract lean/OtpVerif/Gen || true
 ( cd harness && go build -o bin/ssafacts ./cmd/ssafacts && mkdir -p /verif/lean/.lake && VERIF_VC_OUT=/verif/lean/.lake/PanicVC.candidates ./bin/ssafacts /verif/lean/OtpVerif/Gen/Sites.lean && python3 /verif/tools/vcfilter.py /verif/lean/.lake/PanicVC.candidates /verif/lean/OtpVerif/Gen/PanicVC.lean /verif/lean || true )
-( cd harness && go build -o bin/restcorr ./cmd/restcorr && go build -o bin/wasmcorr ./cmd/wasmcorr || true )
+( cd harness && go build -o bin/restcorr ./cmd/restcorr && go build -o bin/wasmcorr ./cmd/wasmcorr && ( GOFLAGS= GOWORK= ./bin/wasmcorr -exports /verif/lean/OtpVerif/Gen/JsExports.lean || true ) || true )
 ( cd harness && go build -race -tags verif -o bin/stress ./cmd/stress || go build -tags verif -o bin/stress ./cmd/stress || true )
 cd lean
 lake build OtpVerif driver 2>&1 | tail -5
